@@ -1,22 +1,24 @@
 #!/bin/bash
 # Runs seeded changes against the committed checks in an isolated copy:
-#   /tmp/vs = worktree of /verif HEAD, /tmp/rs = worktree of /repo HEAD (the harness there depends on /tmp/rs).
+#   /tmp/vs$INST = worktree of /verif HEAD, /tmp/rs$INST = worktree of /repo HEAD (the harness there depends on it).
 # usage: seed_isolated.sh setup | run <seed id> <property ids...>
 set -u
+# INST selects an independent pair of worktrees (several pipelines can run side by side)
+VS=/tmp/vs${INST:-}; RS=/tmp/rs${INST:-}
 case "$1" in
 setup)
-  git -C /verif worktree remove --force /tmp/vs 2>/dev/null; git -C /repo worktree remove --force /tmp/rs 2>/dev/null
-  git -C /verif worktree add -q --detach /tmp/vs HEAD && git -C /repo worktree add -q --detach /tmp/rs HEAD || exit 2
-  sed -i 's#path = "/repo"#path = "/tmp/rs"#' /tmp/vs/harness/Cargo.toml /tmp/vs/harness20/Cargo.toml; cp /verif/harness20/Cargo.lock /tmp/vs/harness20/Cargo.lock
-  sed -i 's#^REPO = "/repo"#REPO = "/tmp/rs"#' /tmp/vs/tools/runner.py /tmp/vs/tools/c16_inventory.py
-  cp /verif/harness/Cargo.lock /tmp/vs/harness/Cargo.lock
-  (cd /tmp/vs && ./check setup > /tmp/vs.setup.log 2>&1); tail -2 /tmp/vs.setup.log
+  git -C /verif worktree remove --force $VS 2>/dev/null; git -C /repo worktree remove --force $RS 2>/dev/null
+  git -C /verif worktree add -q --detach $VS HEAD && git -C /repo worktree add -q --detach $RS HEAD || exit 2
+  sed -i 's#path = "/repo"#path = "$RS"#' $VS/harness/Cargo.toml $VS/harness20/Cargo.toml; cp /verif/harness20/Cargo.lock $VS/harness20/Cargo.lock
+  sed -i 's#^REPO = "/repo"#REPO = "$RS"#' $VS/tools/runner.py $VS/tools/c16_inventory.py
+  cp /verif/harness/Cargo.lock $VS/harness/Cargo.lock
+  (cd $VS && ./check setup > $VS.setup.log 2>&1); tail -2 $VS.setup.log
   ;;
 run)
   ID=$2; shift 2
-  git -C /tmp/rs checkout -q -- . ; git -C /tmp/rs apply /verif/seeded/$ID/patch.diff || { echo "SEED $ID: cannot apply"; exit 2; }
+  git -C $RS checkout -q -- . ; git -C $RS apply /verif/seeded/$ID/patch.diff || { echo "SEED $ID: cannot apply"; exit 2; }
   for P in "$@"; do
-    OUT=$(cd /tmp/vs && ./check $P --tier quick 2>&1 | grep -E "^(VIOLATION|OK|KNOWN|TOOL)" | head -3 | tr '\n' ' ')
+    OUT=$(cd $VS && ./check $P --tier quick 2>&1 | grep -E "^(VIOLATION|OK|KNOWN|TOOL)" | head -3 | tr '\n' ' ')
     echo "SEED $ID check $P: $OUT"
     R=$(echo "$OUT" | grep -o "replay=[^ ]*" | head -1 | cut -d= -f2)
     if [ -n "$R" ] && [ -f "$R" ]; then python3 -c "
@@ -28,6 +30,6 @@ for f in r.get('differing_cases',[])[:2]: print('   differs:', f['case'][:120])
 for f in r.get('broken',[])[:1]: print('   broken:', f['text'][:300])
 "; fi
   done
-  git -C /tmp/rs checkout -q -- .
+  git -C $RS checkout -q -- .
   ;;
 esac
